@@ -504,7 +504,7 @@ fn why(path: Path, st: &Stmt, p: &[Vec<Val>; 2], o: &Observed, got: &[Obs]) -> &
         if all().any(|v| matches!(v, Val::Float(f) if f.is_finite() && Val::float_shown(*f).chars().all(|c| c.is_ascii_digit() || c == '-'))) { return "float_printed_as_integer"; }
         return "unexplained";
     }
-    let got_raw = got[0].text == o.raw[0].text && got[1].text == o.raw[1].text;
+    let got_raw = if d1 { got[0].text == o.raw[0].text } else { got[1].text == o.raw[1].text };
     if (kind == "select" || kind == "delete") && st.has_ph() && got_raw { return "ignored"; }
     let plus_before_ph = st.pieces.windows(2).any(|w| matches!((&w[0], &w[1]), (Piece::Lit(t), Piece::Anon | Piece::Pos(_)) if t.trim_end().ends_with('+')));
     if kind == "update" && plus_before_ph { return "set_expression"; }
